@@ -240,6 +240,10 @@ type tmoCase struct {
 	// slowcb: a control in which a backend callback takes longer than ReadTimeout (and WriteTimeout is unset);
 	// the client sends everything at once and only reads
 	slowcb bool
+	// segs: a control in which the client, after the first write, sends these segments tmoSegPause apart without
+	// waiting for any reply (a pipelining client on a slow link), then `rest`; the time-out is tmoSlowTimeout:
+	// every pause is far shorter, the whole transfer longer
+	segs []string
 }
 
 const (
@@ -250,6 +254,7 @@ const (
 	tmoSlowTimeout = 1600 * time.Millisecond
 	tmoSlowRcpt    = 1000 * time.Millisecond
 	tmoSlowPause   = 1000 * time.Millisecond
+	tmoSegPause    = 450 * time.Millisecond
 )
 
 func runTmo(tc tmoCase) *Sx {
@@ -270,6 +275,9 @@ func runTmo(tc tmoCase) *Sx {
 		be.RcptDelay = tmoSlowRcpt
 		// a write time-out much shorter than every wait of this case: it bounds writes, not reads
 		s.WriteTimeout = 300 * time.Millisecond
+	}
+	if len(tc.segs) > 0 {
+		tmo = tmoSlowTimeout
 	}
 	if tc.slowcb {
 		// the Rcpt callback takes longer than the READ time-out while nothing is being read: no harm
@@ -341,6 +349,16 @@ func finishTmo(tc tmoCase, be *RecBackend, s *smtp.Server, lg *logWriter, client
 					ok = false
 				}
 			}
+		} else if len(tc.segs) > 0 {
+			step = "segments"
+			for _, sg := range tc.segs {
+				time.Sleep(tmoSegPause)
+				client.SetWriteDeadline(time.Now().Add(tmoClientGuard))
+				if _, err := client.Write([]byte(sg)); err != nil {
+					break // the server has closed: the judges see what was received
+				}
+			}
+			time.Sleep(tmoSegPause)
 		} else if tc.slowcb {
 			// nothing to wait for: the rest follows at once
 		} else if tc.slow {
@@ -551,6 +569,26 @@ func GenTmo(rng *rand.Rand, thorough bool, emit func(*Sx)) {
 				tc.codes = cat(envCodes, []int{354}, rep(250, tc.nFinal), afterCodes)
 				tc.extra = append(tc.extra, L(A("must-mail"), XS("after@ok")), L(A("for"), A("C17"), L(A("must-mail"), XS("after@ok"))),
 					L(A("for"), A("C01"), L(A("expect-data"), XS(body), A("eof"))))
+				cases = append(cases, tc)
+			}
+			// ---- BDAT, pipelined chunks on a slow link (control): every segment carries the tail of a chunk, the
+			// next BDAT command and the head of the next chunk, so the server's buffer is never empty at a command
+			// boundary; five pauses of tmoSegPause exceed the time-out, none of them comes near it
+			if round == 0 {
+				part := "0123456789abcdef0123456789abcdef0123456\r\n" // 41 octets
+				var segs []string
+				for i := 0; i < 5; i++ {
+					segs = append(segs, part[20:]+"BDAT 41\r\n"+part[:20])
+				}
+				fin := 1
+				if fl.lmtp {
+					fin = nr
+				}
+				tc := tmoCase{cfg: cfg, plan: DefaultPlan(), focus: "C05", segs: segs,
+					first: env + "BDAT 41\r\n" + part[:20], rest: part[20:] + "BDAT 0 LAST\r\n" + after,
+					nBefore: len(envCodes) - 1, nFinal: fin, name: fmt.Sprintf("bdat-%s-pipelined-slow", fl.name)}
+				tc.codes = cat(envCodes, rep(250, 6), rep(250, fin), afterCodes)
+				tc.extra = append(tc.extra, L(A("must-mail"), XS("after@ok")), L(A("expect-del"), XS(strings.Repeat(part, 6))))
 				cases = append(cases, tc)
 			}
 			// ---- BDAT, accepted chunk ----
